@@ -146,6 +146,20 @@ def check(ctx):
                         clean = False
         ok = before or (after and clean)
         ctx.ob("DOM.record.with-store", st, f"{unparse(st)}: every store is recorded (before it, or right after it succeeded) unless record is False", ok, "" if ok else "a configuration store can happen without a rollback record")
+    # a record describes a change that HAS happened: the store it describes precedes it on every
+    # path (the store may raise -- `d` can be a non-mapping such as a list under a dotted key --
+    # and the transactional constructor then replays the records: undoing a change that never
+    # happened raises from inside the rollback and leaves earlier assignments applied), unless
+    # the store is protected by a handler that takes the record back.
+    store_nodes = {g.node_of(s_) for s_ in stores}
+    for n, _ in appends:
+        ok = g.all_paths_pass(g.entry, g.node_of(n), store_nodes)
+        if not ok:
+            for s_ in stores:
+                t_, part_ = try_of(s_)
+                if t_ is not None and part_ == "body" and any(find("self._record.pop()", h) for h in t_.handlers):
+                    ok = True
+        ctx.ob("DOM.record.after-store", n, f"{unparse(n)}: appended only after the store it describes succeeded", ok, "" if ok else "the rollback record is appended before the store: when the store raises, __exit__ undoes a change that never happened")
     # replace records the old value (captured before the store), insert only when absent
     for n, t, st_ in entries:
         tag = const(t.elts[0]) if t.elts else None
@@ -266,7 +280,9 @@ VARIANTS = [
     (CFG, '            priority == "new"\n            or k not in old', '            priority == "new"\n            or k in old', "ALG.update.leaf"),
     (CFG, '                op = ("replace", path, d[key])', '                op = ("replace", path, value)', "DOM.record.replace-old-value"),
     (CFG, '            if key in d:\n                op = ("replace", path, d[key])\n            else:\n                op = ("insert", path, None)\n            d[key] = value\n', '            d[key] = value\n            if key in d:\n                op = ("replace", path, d[key])\n            else:\n                op = ("insert", path, None)\n', "DOM.record.replace-old-value"),
-    (CFG, "        key = canonical_name(keys[0], d)\n\n        path = path + (key,)", "        path = path + (keys[0],)\n\n        key = canonical_name(keys[0], d)", "NORM.canonical.record-path"),
+    (CFG, "            d[key] = value\n            # Only record what actually happened: the store above may raise\n            if record:\n                self._record.append(op)\n", "            if record:\n                self._record.append(op)\n            d[key] = value\n", "DOM.record.after-store"),
+    (CFG, '                d[key] = {}\n                if record:\n                    self._record.append(("insert", path, None))\n', '                if record:\n                    self._record.append(("insert", path, None))\n                d[key] = {}\n', "DOM.record.after-store"),
+    (CFG, "        key = canonical_name(keys[0], d)\n\n        path = path + (key,)","        path = path + (keys[0],)\n\n        key = canonical_name(keys[0], d)", "NORM.canonical.record-path"),
 ]
 
 
